@@ -244,12 +244,27 @@ class ScriptedTor(object):
         """client bytes in -> list of ('send', bytes) / ('close',)"""
         self.buf += data
         acts = []
-        while b'\n' in self.buf and not self.closing:
+        while b'\n' in self.buf:
             line, self.buf = self.buf.split(b'\n', 1)
             if line.endswith(b'\r'):
                 line = line[:-1]
+            if self.closing:
+                # Tor has already decided to hang up: the line is on the wire but never answered
+                entry = self._entry(line)
+                entry['ignored'] = True
+                if entry['word'] == 'AUTHENTICATE':
+                    entry['token'] = parse_token(entry['arg'])
+                continue
             acts.extend(self.handle(line))
         return acts
+
+    def _entry(self, line):
+        parts = line.split(None, 1)
+        word = parts[0].upper().decode('latin-1') if parts else ''
+        arg = parts[1].strip() if len(parts) > 1 else b''
+        entry = {'line': line, 'word': word, 'arg': arg, 'authed_before': self.authed, 'reply': b'', 'ok': False}
+        self.log.append(entry)
+        return entry
 
     def rb(self, n):
         return bytes(bytearray(self.rnd.getrandbits(8) for _ in range(n)))
@@ -266,11 +281,8 @@ class ScriptedTor(object):
         return acts
 
     def handle(self, line):
-        parts = line.split(None, 1)
-        word = parts[0].upper().decode('latin-1') if parts else ''
-        arg = parts[1].strip() if len(parts) > 1 else b''
-        entry = {'line': line, 'word': word, 'arg': arg, 'authed_before': self.authed, 'reply': b'', 'ok': False}
-        self.log.append(entry)
+        entry = self._entry(line)
+        word, arg = entry['word'], entry['arg']
         if not self.authed:
             if word == 'PROTOCOLINFO':
                 return self.protocolinfo(entry)
@@ -582,6 +594,8 @@ def _drive(case, fixture):
         if st['closed']:
             return
         st['closed'] = True
+        st['sent_before_loss'] = len(t.value())
+        tor.closing = True
         reason = Failure(error.ConnectionDone()) if clean else Failure(error.ConnectionLost())
         guarded(proto.connectionLost, reason)
 
@@ -594,9 +608,13 @@ def _drive(case, fixture):
             progress = False
             new = t.value()[st['consumed']:]
             if new:
+                start = st['consumed']
                 st['consumed'] += len(new)
                 progress = True
-                if not st['closed']:
+                if st['closed']:
+                    # written while the connection was still up, but Tor was already hanging up
+                    tor.receive(new[:max(0, st['sent_before_loss'] - start)])
+                else:
                     for act in tor.receive(new):
                         if st['closed']:
                             break
@@ -608,7 +626,12 @@ def _drive(case, fixture):
                         for c in chunks:
                             left -= len(c)
                             st['undelivered'] = left
-                            if not guarded(proto.dataReceived, c):
+                            natt = len(st['attempts'])
+                            ok = guarded(proto.dataReceived, c)
+                            for a in st['attempts'][natt:]:
+                                # a command the client put on the wire in the same step in which it declared itself ready
+                                a['unconsumed_after'] = len(t.value()) - st['consumed']
+                            if not ok:
                                 st['undelivered'] = 0
                                 lose(False)
                                 break
@@ -702,7 +725,7 @@ def _judge(case, obs):
                 why = 'after_failed_query:' + a['failed'].replace(' ', '_')
             elif a['closed']:
                 why = 'after_connection_lost'
-            elif a['undelivered'] or a['unconsumed']:
+            elif a['undelivered'] or a['unconsumed'] or a.get('unconsumed_after'):
                 why = 'with_query_outstanding'
             if why:
                 bad('ready_success_only_after_auth_and_bootstrap', why,
@@ -981,15 +1004,26 @@ def unescape_inputs(tier, rnd):
             yield qs_encode(nm, style)
 
 
+KEEP_PER_KEY = 40
+
+
 def twin(tier, seed):
     rnd = random.Random(seed)
     violations, evaluations, distinct, samples = [], 0, set(), []
+    per_key = {}
+
+    def report(vs):
+        # every violating case is counted, but at most KEEP_PER_KEY full records are kept per key
+        for v in vs:
+            per_key[v['key']] = per_key.get(v['key'], 0) + 1
+            if per_key[v['key']] <= KEEP_PER_KEY:
+                violations.append(v)
     fx = Fixture()
-    nrandom = 1500 if tier == 'quick' else 60000
+    nrandom = 1200 if tier == 'quick' else 40000
     try:
         def one(case):
             v, obs = run_session(case, fx)
-            violations.extend(v)
+            report(v)
             distinct.add(case_id(case))
             return obs
         for case in structured_cases(tier):
@@ -1010,7 +1044,10 @@ def twin(tier, seed):
         evaluations += 1
         if '\\' in q and q not in seen:
             seen.add(q)
-        violations.extend(check_unescape(q))
+        report(check_unescape(q))
+    for v in violations:
+        if per_key[v['key']] > KEEP_PER_KEY and 'cases with this key' not in v['what']:
+            v['what'] += ' [%d cases with this key in this run; %d kept]' % (per_key[v['key']], KEEP_PER_KEY)
     return {'evaluations': evaluations, 'distinct_nontrivial': len(distinct) + len(seen), 'samples': samples,
             'violations': violations,
             'rule': 'one evaluation = one complete connection attempt of a real TorControlProtocol against the in-file scripted Tor '
